@@ -5,6 +5,7 @@
 mod composer_script;
 mod dispatch;
 mod kernels;
+mod merlin_script;
 mod kzg;
 mod protocol;
 mod util;
@@ -56,6 +57,7 @@ fn main() {
         "widgets" => widgets::run(&text),
         "kernels" => kernels::run(&text),
         "kzg" => kzg::run(&text),
+        "merlin" => merlin_script::run(&text),
         "protocol" => protocol::run(&text),
         m => {
             eprintln!("unknown mode {m}");
